@@ -31,7 +31,25 @@ REVIEWED = {
 }
 
 
+def ob_broadcast_unfiltered(run, o):
+    """Votor::broadcast - the helper every outgoing vote and certificate goes through - sends whatever it is given"""
+    prog = run.program("lib")
+    fam = [x for x in prog.family(VOTOR + "Votor::broadcast") if x.is_closure]
+    if not fam:
+        o.missing("Votor::broadcast")
+    for x in fam:
+        sends = [c for c in x.calls() if c.name.rsplit("::", 1)[-1] == "broadcast" and c.name != VOTOR + "Votor::broadcast"]
+        o.check(len(sends) >= 1 and x.always_followed_by(0, [c.bb for c in sends]), "Votor::broadcast|always-sends", "every call ends in All2All::broadcast", x.span)
+        for c in sends:
+            extra = D.extra_guards(prog, x, c.bb, [])
+            o.check(not extra, "Votor::broadcast|no-filter", "no condition on the message (kind, slot, pruning state) stands before the send", c.span, {"extra": G.atoms_show(extra)})
+            t = x.operand_term(c.args[1])
+            o.check(K.mentions(t, lambda y: y[0] in ("param", "upvar") and (y[0] == "upvar" or y[1] == 2)), "Votor::broadcast|same-message", "the message sent is the one given", c.span, {"arg": mir.show(t)[:80]})
+
+
 def check(run):
+    from . import detectors as _DL
+    _DL.ob_loop_exits(run, "O18.7", ['consensus::pool', 'consensus::votor'], 'the recovery bundle contains every certificate and vote and each is re-broadcast: a loop that stops early sends a partial bundle')
     # "a node that receives only this bundle reaches ... the same ready parents for the following window": the receiver's ready
     # parents are computed by the parent-ready tracker from the bundle's certificates
     from . import C07
@@ -205,6 +223,7 @@ def check(run):
         for f, c in its.items():
             nxt = [x for x in b.calls() if x.name.endswith("Iterator>::next") or x.name.endswith("::next")]
             pass
+    ob_broadcast_unfiltered(run, o)
     sib = prog.body(VOTOR + "Votor::should_ignore_pool_event")
     if sib is None:
         o.missing("Votor::should_ignore_pool_event")
